@@ -160,6 +160,8 @@ func c08Eval(w *mc.W, cas c08Case) {
 		c08Bloom(w, cas)
 	case "bloom-reload":
 		c08BloomReload(w, cas)
+	case "bloom-pushes":
+		c08BloomPushes(w, cas)
 	case "GetMatchedIndices-growth":
 		c08Growth(w, cas)
 	case "merkleblock":
@@ -208,6 +210,41 @@ func c08Bloom(w *mc.W, cas c08Case) {
 			blk.AddTransaction(tx)
 			bloom.NewMerkleBlock(bchutil.NewBlock(blk), f)
 		}
+	})
+}
+
+// ---- bloom: a transaction parsed from bytes whose output script is a long run of small data pushes,
+// every one of which the filter matches (cost per push must not grow with the transaction)
+func c08BloomPushes(w *mc.W, cas c08Case) {
+	// A: number of pushes; B: 0 = "01 42" pushes against a filter holding 0x42, 1 = OP_0 pushes against a
+	// match-all filter; C: update flag
+	n := int(cas.A)
+	var script []byte
+	for i := 0; i < n; i++ {
+		if cas.B == 0 {
+			script = append(script, 0x01, 0x42)
+		} else {
+			script = append(script, 0x00)
+		}
+	}
+	tx := wire.NewMsgTx(1)
+	tx.AddTxIn(c10In(c10InKinds[0], 0))
+	tx.AddTxOut(wire.NewTxOut(1, script, wire.TokenData{}))
+	var raw bytes.Buffer
+	tx.Serialize(&raw)
+	c08Measure(w, cas, raw.Len(), func() {
+		t, err := bchutil.NewTxFromBytes(raw.Bytes())
+		if err != nil {
+			return
+		}
+		var f *bloom.Filter
+		if cas.B == 0 {
+			f = bloom.LoadFilter(wire.NewMsgFilterLoad(make([]byte, 512), 3, 9, wire.BloomUpdateType(cas.C)))
+			f.Add([]byte{0x42})
+		} else {
+			f = bloom.LoadFilter(wire.NewMsgFilterLoad(bytes.Repeat([]byte{0xff}, 8), 3, 9, wire.BloomUpdateType(cas.C)))
+		}
+		f.MatchTxAndUpdate(t)
 	})
 }
 
@@ -777,6 +814,14 @@ func c08Cases(c *mc.Ctx) ([]c08Case, int) {
 					}
 					add(c08Case{Family: "bloom", A: int64(flen), B: int64(k), C: int64(fl), D: int64(sel)})
 				}
+			}
+		}
+	}
+	// 4a. long runs of matched data pushes in one output script
+	for _, n := range []int{100, 1000, 5000, 20000, 30000} {
+		for b := int64(0); b < 2; b++ {
+			for fl := int64(0); fl < 3; fl++ {
+				add(c08Case{Family: "bloom-pushes", A: int64(n), B: b, C: fl})
 			}
 		}
 	}
